@@ -198,7 +198,7 @@ func (b *Box) maybeGC() {
 
 	epochsAfterWhichWeGC := b.GCExpire / b.GCSweep
 
-	if time.Duration(now-lastGC) > epochsAfterWhichWeGC {
+	if time.Duration(now-lastGC) < epochsAfterWhichWeGC {
 		return
 	}
 
